@@ -441,7 +441,7 @@ def corr_eval(ck, full, orc):
     d = os.path.join(vlib.BUILD, "cases", ck.pid)
     os.makedirs(d, exist_ok=True)
     # shards of roughly equal literal weight, cases of one token kept together
-    nshards = 12
+    nshards = 12 if not ck.thorough else 16
     weights = [len(json.dumps(c)) for c in full]
     total = sum(weights)
     bounds, acc, start = [], 0, 0
@@ -477,7 +477,7 @@ def corr_eval(ck, full, orc):
 
 
 def run(ck):
-    scale = 1 if not ck.thorough else 6
+    scale = 1 if not ck.thorough else 24
     ck.gen()
     built = ck.coq_make(MODEL + PROOFS, clean=ck.thorough)
     ck.obligations = ck.count_statements(STATEMENT_FILES)
@@ -511,6 +511,14 @@ def run(ck):
             agg = ck.coverage["sweep_classes"][c["fam"]][c["class"]]
             agg[0] += c.get("n", 0)
             agg[1] += c.get("accepted", 0)
+            continue
+        if c["op"] == "roleverify":
+            ck.count(c["stream"], key=(c["note"],))
+            if c["obs"].get("crash") or c["obs"]["ok"] != bool(c.get("sigok")):
+                ck.violation("impl:roles:self-token:%s" % ("accepted" if c["obs"]["ok"] else "rejected"),
+                             "Roles.VerifySelfToken, %s: accepted=%s" % (c["note"], c["obs"]["ok"]),
+                             {"case": c, "expected": "accepted" if c.get("sigok") else "rejected",
+                              "observed": c["obs"]})
             continue
         full.append(c)
         orc.note(c)
